@@ -1082,6 +1082,10 @@ class Executor:
                 for loc in sorted(assigned):
                     nm = func.debug.get(loc)
                     base = "%s#loop%d_%d%s" % (func.short, bbid, loc, ("=" + nm) if nm else "")
+                    # loop-carried state that was seed-dependent before the loop (an iterator over a hash container)
+                    # stays seed-dependent: the symbol that replaces it is itself a seeded one
+                    if self.seeded is not None and (fr, loc) in st.vals and mentions_seed(st.vals[(fr, loc)]):
+                        base = "seed!" + base
                     flds = assigned[loc]
                     if flds is None or (fr, loc) not in st.vals:
                         st.vals[(fr, loc)] = ("sym", base)
